@@ -14,43 +14,47 @@ open MesonModel.Eval MesonModel.Generated
 /-- evaluation of `n` entered with `current_node` set to line `ln` -/
 abbrev at_ (s : St) (ln : Nat) : St := { s with line := ln }
 
+/- the entry points for `subdir()` / `subproject()` (`hooksFor files` for a source tree `files`);
+everything below holds for all of them -/
+variable (hk : Hooks)
+
 /-! ### short-circuit `and` / `or` -/
 
 /-- if the left operand of `and` is false, the result is `false` in the state the left operand left
 behind, whatever the right operand is: it is not evaluated (not even when it would fail) -/
 theorem and_short_circuit (ln : Nat) (l r : Node) (s s1 : St) (v : Val)
-    (hl : eval l (at_ s ln) = .ok (some v) s1)
+    (hl : eval hk l (at_ s ln) = .ok (some v) s1)
     (hv : operatorCall v .bool none = .ok (.bool false)) :
-    eval (.and_ ln l r) s =
+    eval hk (.and_ ln l r) s =
       .ok (some (.bool false))
         { s1 with cov := .note cs!"and:short-circuit" :: .unary .bool v.ty none :: s1.cov } := by
   simp [eval, bind, EvalM.bind, setLine, hl, truth, liftE, hv, tag, pure, EvalM.pure]
 
 /-- hence replacing the right operand by any other expression changes nothing -/
 theorem and_right_operand_irrelevant (ln : Nat) (l r r' : Node) (s s1 : St) (v : Val)
-    (hl : eval l (at_ s ln) = .ok (some v) s1)
+    (hl : eval hk l (at_ s ln) = .ok (some v) s1)
     (hv : operatorCall v .bool none = .ok (.bool false)) :
-    eval (.and_ ln l r) s = eval (.and_ ln l r') s := by
-  rw [and_short_circuit ln l r s s1 v hl hv, and_short_circuit ln l r' s s1 v hl hv]
+    eval hk (.and_ ln l r) s = eval hk (.and_ ln l r') s := by
+  rw [and_short_circuit hk ln l r s s1 v hl hv, and_short_circuit hk ln l r' s s1 v hl hv]
 
 theorem or_short_circuit (ln : Nat) (l r : Node) (s s1 : St) (v : Val)
-    (hl : eval l (at_ s ln) = .ok (some v) s1)
+    (hl : eval hk l (at_ s ln) = .ok (some v) s1)
     (hv : operatorCall v .bool none = .ok (.bool true)) :
-    eval (.or_ ln l r) s =
+    eval hk (.or_ ln l r) s =
       .ok (some (.bool true))
         { s1 with cov := .note cs!"or:short-circuit" :: .unary .bool v.ty none :: s1.cov } := by
   simp [eval, bind, EvalM.bind, setLine, hl, truth, liftE, hv, tag, pure, EvalM.pure]
 
 theorem or_right_operand_irrelevant (ln : Nat) (l r r' : Node) (s s1 : St) (v : Val)
-    (hl : eval l (at_ s ln) = .ok (some v) s1)
+    (hl : eval hk l (at_ s ln) = .ok (some v) s1)
     (hv : operatorCall v .bool none = .ok (.bool true)) :
-    eval (.or_ ln l r) s = eval (.or_ ln l r') s := by
-  rw [or_short_circuit ln l r s s1 v hl hv, or_short_circuit ln l r' s s1 v hl hv]
+    eval hk (.or_ ln l r) s = eval hk (.or_ ln l r') s := by
+  rw [or_short_circuit hk ln l r s s1 v hl hv, or_short_circuit hk ln l r' s s1 v hl hv]
 
 /-- a failing left operand decides the whole expression too -/
 theorem and_left_error (ln : Nat) (l r r' : Node) (s s1 : St) (e : ErrK)
-    (hl : eval l (at_ s ln) = .err e s1) :
-    eval (.and_ ln l r) s = .err e s1 ∧ eval (.or_ ln l r') s = .err e s1 := by
+    (hl : eval hk l (at_ s ln) = .err e s1) :
+    eval hk (.and_ ln l r) s = .err e s1 ∧ eval hk (.or_ ln l r') s = .err e s1 := by
   constructor <;> simp [eval, bind, EvalM.bind, setLine, hl]
 
 /-- only `bool` has a truth value: `and`/`or`/`if`/ternary on anything else is an error -/
@@ -59,8 +63,8 @@ theorem truth_only_bool (v : Val) (b : Bool) (h : operatorCall v .bool none = .o
   cases v <;> simp [operatorCall, opEntry, opEntryIn, EvalTables.opTable, Val.ty, opBody] at h
   exact congrArg Val.bool h
 
-example : ∃ s1, eval (.and_ 1 (.bool 1 false) (.id 1 cs!"undefined")) {} = .ok (some (.bool false)) s1 :=
-  ⟨_, and_short_circuit 1 (.bool 1 false) _ {} _ (.bool false) rfl rfl⟩
+example : ∃ s1, eval (hooksFor []) (.and_ 1 (.bool 1 false) (.id 1 cs!"undefined")) {} = .ok (some (.bool false)) s1 :=
+  ⟨_, and_short_circuit (hooksFor []) 1 (.bool 1 false) _ {} _ (.bool false) rfl rfl⟩
 
 /-! ### integer division and modulo -/
 
@@ -92,8 +96,8 @@ theorem div_by_zero_is_error (a : Int) :
 
 /-- the evaluator computes exactly this for every pair of operand expressions -/
 theorem eval_div (ln : Nat) (l r : Node) (s s1 s2 : St) (a b : Int) (hb : b ≠ 0)
-    (hl : eval l (at_ s ln) = .ok (some (.int a)) s1) (hr : eval r s1 = .ok (some (.int b)) s2) :
-    eval (.arith ln .div l r) s =
+    (hl : eval hk l (at_ s ln) = .ok (some (.int a)) s1) (hr : eval hk r s1 = .ok (some (.int b)) s2) :
+    eval hk (.arith ln .div l r) s =
       .ok (some (.int (pyFloorDiv a b))) { s2 with cov := .bin .int .div .int false none :: s2.cov } := by
   simp [eval, bind, EvalM.bind, setLine, hl, hr, liftE, arithOp, (div_floor a b hb).1, Val.ty, pure, EvalM.pure]
 
@@ -145,6 +149,115 @@ theorem container_equality_quirk : pyEq (.arr [.int 1]) (.arr [.bool true]) = tr
 example : ∃ e, operatorCall (.str cs!"a") .plus (some (.int 1)) = .error e ∧ e ≠ .unsupported :=
   no_implicit_conversion_partial .plus _ _ rfl (by decide) (by decide) (by decide)
 
+/-! ### strict typing of the remaining operand positions (all from the regenerated tables) -/
+
+/-- ANY binary operator whose table entry rejects the operand type fails with a type error
+(`rejects` reads only the regenerated `opTable`) -/
+theorem typed_operator_rejects (l r : Val) (op : Op) (h : rejects l.ty op r.ty = true) :
+    ∃ e, operatorCall l op (some r) = .error e ∧ e ≠ .unsupported := rejects_sound l r op h
+
+/-- which operand types each container accepts for `in` / `not in` and `[]`, as a table fact:
+* `x in str`, `x in dict`, `dict[x]` need a `str`; `str[i]`, `array[i]` need an `int`
+  (and, the quirk again, accept a `bool`);
+* `int`, `bool`, subproject objects support none of them; `range` supports only `[]`;
+* NOT strict by design: `x in array` accepts every type (an element of another type is just absent). -/
+theorem container_operand_types :
+    (∀ t, t ≠ .str → rejects .str .in_ t = true ∧ rejects .str .notIn t = true ∧
+                     rejects .dict .in_ t = true ∧ rejects .dict .notIn t = true ∧
+                     rejects .dict .index t = true) ∧
+    (∀ t, t ≠ .int → t ≠ .bool → rejects .str .index t = true ∧ rejects .arr .index t = true) ∧
+    (∀ t op, (op = .in_ ∨ op = .notIn ∨ op = .index) →
+        rejects .int op t = true ∧ rejects .bool op t = true ∧ rejects .subproj op t = true) ∧
+    (∀ t, rejects .range .in_ t = true ∧ rejects .range .notIn t = true) ∧
+    (∀ t, rejects .arr .in_ t = false ∧ rejects .arr .notIn t = false) := by
+  refine ⟨?_, ?_, ?_, ?_, ?_⟩
+  · intro t; cases t <;> decide
+  · intro t; cases t <;> decide
+  · intro t op h; rcases h with rfl | rfl | rfl <;> cases t <;> decide
+  · intro t; cases t <;> decide
+  · intro t; cases t <;> decide
+
+/-- `range(..)[x]` has no operand check at all: a non-integer index escapes as a Python `TypeError`
+(an error, but not Meson's own type error) -/
+theorem range_index_unchecked (a b c : Int) (k : Str) :
+    operatorCall (.range a b c) .index (some (.str k)) = .error .pyTypeError := rfl
+
+/-- unary operators and truth values: `-x` only for `int`, `not x` and the truth value used by
+`and` / `or` / `if` / `?:` only for `bool` — every other operand type is an error -/
+theorem unary_operand_types (v : Val) :
+    (v.ty ≠ .int → operatorCall v .uminus none = .error .invalidCode) ∧
+    (v.ty ≠ .bool → operatorCall v .not_ none = .error .invalidCode) ∧
+    (v.ty ≠ .bool → operatorCall v .bool none = .error .invalidCode) := by
+  refine ⟨?_, ?_, ?_⟩ <;> intro h <;> cases v <;> first | exact absurd rfl h | rfl
+
+/-- `and` / `or` with a non-`bool` left operand fail (no truthiness of `''`, `0`, `[]`, …) -/
+theorem logic_operands_must_be_bool (ln : Nat) (l r : Node) (s s1 : St) (v : Val)
+    (hl : eval hk l (at_ s ln) = .ok (some v) s1) (hv : v.ty ≠ .bool) :
+    eval hk (.and_ ln l r) s = .err .invalidCode { s1 with cov := .unary .bool v.ty (some .invalidCode) :: s1.cov } ∧
+    eval hk (.or_ ln l r) s = .err .invalidCode { s1 with cov := .unary .bool v.ty (some .invalidCode) :: s1.cov } := by
+  have hb := (unary_operand_types v).2.2 hv
+  constructor <;> simp [eval, bind, EvalM.bind, setLine, hl, truth, liftE, hb]
+
+/-- method arguments: a positional argument that is not an instance of the type the method's
+decorator declares (signature read from the live decorator into `methodSigs`) is a type error, and so
+is a wrong argument count -/
+theorem method_args_strict (t : Ty) (name : Str) (req opt : List PyTy) (args : List Val)
+    (hs : sigOf t name = some (.pos req opt)) :
+    (allInst args (req ++ opt) = false → argCheck t name args = .error .invalidArguments) ∧
+    (args.length < req.length ∨ args.length > req.length + opt.length →
+      argCheck t name args = .error .invalidArguments) := by
+  constructor
+  · intro h
+    simp only [argCheck, hs, typedPos]
+    split
+    · rfl
+    · split
+      · rfl
+      · simp [h]
+  · intro h
+    simp only [argCheck, hs, typedPos]
+    rcases h with h | h
+    · simp [h]
+    · split
+      · rfl
+      · simp [h]
+
+theorem method_varargs_strict (t : Ty) (name : Str) (ty : PyTy) (min : Nat) (args : List Val)
+    (hs : sigOf t name = some (.var ty min)) (h : args.all (fun v => isInstance v ty) = false) :
+    argCheck t name args = .error .invalidArguments := by
+  simp only [argCheck, hs, typedVar]
+  split
+  · rfl
+  · simp [h]
+
+theorem method_nopos_strict (t : Ty) (name : Str) (args : List Val)
+    (hs : sigOf t name = some .noPos) (h : args ≠ []) : argCheck t name args = .error .invalidArguments := by
+  simp only [argCheck, hs, noPos]
+  cases args with
+  | nil => exact absurd rfl h
+  | cons a r => rfl
+
+/-- the declared parameter types, as a fact about the regenerated signature table: every parameter is
+`str`, `int` or `object`; the `object` (deliberately untyped) ones are exactly the searched element
+of `array.contains`, the fallbacks of `array.get` / `dict.get` / `subproject.get_variable` and the
+arguments of `str.format` -/
+def sigTypes : MSig → List PyTy
+  | .noPos => []
+  | .pos r o => r ++ o
+  | .var t _ => [t]
+
+def untypedParams : List (Ty × Str) :=
+  (EvalTables.methodSigs.filter (fun e => (sigTypes e.2.2).contains .object)).map (fun e => (e.1, e.2.1))
+
+theorem method_parameter_types :
+    (EvalTables.methodSigs.all fun e => (sigTypes e.2.2).all fun t => t == .str || t == .int || t == .object) = true ∧
+    untypedParams = [(.subproj, cs!"get_variable"), (.str, cs!"format"), (.arr, cs!"contains"), (.arr, cs!"get"),
+                     (.dict, cs!"get")] := by
+  constructor <;> decide
+
+example : methodCall (.str cs!"abc") cs!"contains" [.int 1] [] = .error .invalidArguments := by rfl
+example : methodCall (.dict []) cs!"has_key" [.str cs!"a", .str cs!"b"] [] = .error .invalidArguments := by rfl
+
 /-! ### indexing -/
 
 /-- `a[-k]` is the k-th element from the end -/
@@ -184,7 +297,8 @@ theorem keys_sorted (d : List (Str × Val)) :
     show (methodsOf .dict).contains cs!"keys" = true
     decide
   rw [hm]
-  simp [dictMethod, noKw, noPos, flattenL, bind, Except.bind, pure, Except.pure]
+  have ha : argCheck .dict cs!"keys" [] = .ok () := by rfl
+  simp [dictMethod, noKw, flattenL, ha, bind, Except.bind, pure, Except.pure]
 
 example : dictKeysSorted [(cs!"b", .int 1), (cs!"a", .int 2), (cs!"B", .int 3)] = [cs!"B", cs!"a", cs!"b"] := by
   decide
@@ -237,31 +351,35 @@ theorem foreach_absorbs_signals (body : EvalM Unit) (vars : List Str) :
         cases b2
         · exact foreach_absorbs_signals body vars rest _ s' b
         · simp
+      | done s2 => simp
     | err e s1 => simp
     | sig b1 s1 => exact absurd h1 (bindVars_no_signal vars vals s _ _)
+    | done s1 => simp
 
 /-- so a whole `foreach` statement never propagates one (provided the iterated expression does not) -/
 theorem foreach_statement_absorbs (ln : Nat) (vars : List Str) (items : Node) (block : List Node)
-    (s s' : St) (b : Bool) (hi : ∀ t, eval items (at_ s ln) ≠ .sig b t) :
-    eval (.foreach ln vars items block) s ≠ .sig b s' := by
+    (s s' : St) (b : Bool) (hi : ∀ t, eval hk items (at_ s ln) ≠ .sig b t) :
+    eval hk (.foreach ln vars items block) s ≠ .sig b s' := by
   simp only [eval, bind, EvalM.bind, setLine]
-  cases h1 : eval items { s with line := ln } with
+  cases h1 : eval hk items { s with line := ln } with
   | ok a s1 =>
     simp only [liftE]
     cases h2 : iterItems a vars.length with
     | ok tuples =>
       simp only []
-      cases h3 : forLoop (execBlock block) vars tuples
+      cases h3 : forLoop (execBlock hk block) vars tuples
           { s1 with cov := Tag.foreach (Option.map Val.ty a) none :: s1.cov } with
       | ok u s2 => simp [pure, EvalM.pure]
       | err e s2 => simp
       | sig b2 s2 => exact absurd h3 (foreach_absorbs_signals _ _ _ _ _ _)
+      | done s2 => simp
     | error e => simp
   | err e s1 => simp
   | sig b1 s1 =>
     intro hc
     cases hc
     exact hi _ h1
+  | done s1 => simp
 
 /-- iteration order: arrays in index order, dictionaries in insertion order, `range(a, b, s)`
 as a, a+s, … -/
@@ -276,8 +394,8 @@ theorem foreach_iteration_order (l : List Val) (d : List (Str × Val)) :
 /-- `name = v`: the new table is the old one with `name` bound to the value; nothing else moves -/
 theorem assignment_no_alias (ln : Nat) (name : Str) (v : Node) (s s1 : St) (x : Val)
     (hd : s.depth = 0) (hb : isBuiltin name = false)
-    (hv : eval v (at_ s ln) = .ok (some x) s1) :
-    eval (.assign ln name v) s = .ok none { s1 with vars := insert name x s1.vars } ∧
+    (hv : eval hk v (at_ s ln) = .ok (some x) s1) :
+    eval hk (.assign ln name v) s = .ok none { s1 with vars := insert name x s1.vars } ∧
     lookup name (insert name x s1.vars) = some x ∧
     ∀ y, y ≠ name → lookup y (insert name x s1.vars) = lookup y s1.vars := by
   refine ⟨?_, lookup_insert_self _ _ _, fun y hy => lookup_insert_ne _ hy _⟩
@@ -292,10 +410,10 @@ theorem assignment_no_alias (ln : Nat) (name : Str) (v : Node) (s s1 : St) (x : 
 name (in particular one that was assigned from `name` before) keeps the value it had -/
 theorem plus_assign_fresh (ln : Nat) (name : Str) (e : Node) (s s1 : St) (add old new : Val)
     (hb : isBuiltin name = false)
-    (he : eval e (at_ s ln) = .ok (some add) s1)
+    (he : eval hk e (at_ s ln) = .ok (some add) s1)
     (hold : lookup name s1.vars = some old)
     (hplus : operatorCall old .plus (some add) = .ok new) :
-    eval (.plusassign ln name e) s =
+    eval hk (.plusassign ln name e) s =
       .ok none { s1 with vars := insert name new s1.vars,
                          cov := .bin old.ty .plus add.ty true none :: s1.cov } ∧
     ∀ y, y ≠ name → lookup y (insert name new s1.vars) = lookup y s1.vars := by
@@ -305,23 +423,112 @@ theorem plus_assign_fresh (ln : Nat) (name : Str) (e : Node) (s s1 : St) (add ol
     ↓reduceIte, hplus]
   simp [pure, EvalM.pure]
 
-/-- THE immutability statement, for every tree and every state: whatever evaluating `n` does —
-finishing, failing, or leaving through `break`/`continue` — a name that `n` does not syntactically
-(re)bind (`mayWrite x n = false`: no `x = …`, `x += …`, `foreach x`, and no `set_variable` /
-`unset_variable` call, whose target is computed) is bound to exactly the value it had before.
-In particular `b += …`, a method call, or an operator on a value obtained from `a` never changes `a`. -/
-theorem no_operation_changes_another_name (x : Str) (n : Node) (h : mayWrite x n = false) (s : St) :
-    lookup x (eval n s).st.vars = lookup x s.vars := by
-  have := frame_eval x n h
+/-- THE immutability statement, for every tree, every state and every source tree: whatever
+evaluating `n` does — finishing, failing, or leaving through `break`/`continue`/`subdir_done()` — a
+name that `n` does not syntactically (re)bind (`mayWrite x n = false`: no `x = …`, `x += …`,
+`foreach x`, no `set_variable` / `unset_variable` call, whose target is computed, and no `subdir()`,
+whose file shares the table) is bound to exactly the value it had before.  In particular `b += …`,
+a method call, an operator on a value obtained from `a`, or a whole `subproject()` never changes `a`. -/
+theorem no_operation_changes_another_name (files : Files) (fuel : Nat) (x : Str) (n : Node)
+    (h : mayWrite x n = false) (s : St) :
+    lookup x (eval (hooksAt files fuel) n s).st.vars = lookup x s.vars := by
+  have := frame_eval x (hooksAt files fuel) (hooksAt_subproject_frame files fuel) n h
   unfold FrameM at this
   exact this s
 
 /-- the same for a whole block of statements (a build file, a loop body, an `if` arm) -/
-theorem block_changes_only_assigned_names (x : Str) (b : List Node) (h : mayWriteL x b = false) (s : St) :
-    lookup x (execBlock b s).st.vars = lookup x s.vars := by
-  have := frame_execBlock x b h
+theorem block_changes_only_assigned_names (files : Files) (fuel : Nat) (x : Str) (b : List Node)
+    (h : mayWriteL x b = false) (s : St) :
+    lookup x (execBlock (hooksAt files fuel) b s).st.vars = lookup x s.vars := by
+  have := frame_execBlock x (hooksAt files fuel) (hooksAt_subproject_frame files fuel) b h
   unfold FrameM at this
   exact this s
+
+/-! ### `subdir()` and `subproject()` -/
+
+theorem leave_keeps (prev : Str) (r : Res Unit) :
+    ((match leaveSubdir prev r () with
+        | .ok _ s2 => .ok none s2
+        | .err e s2 => .err e s2
+        | .sig b s2 => .sig b s2
+        | .done s2 => .done s2 : Res (Option Val))).st.vars = r.st.vars ∧
+    ((match leaveSubdir prev r () with
+        | .ok _ s2 => .ok none s2
+        | .err e s2 => .err e s2
+        | .sig b s2 => .sig b s2
+        | .done s2 => .done s2 : Res (Option Val))).st.out = r.st.out := by
+  cases r <;> exact ⟨rfl, rfl⟩
+
+/-- `subdir('d')` IS the execution of d's block in place: the block is run by the same evaluator on
+the caller's own state — same variable table, same log — with only the directory bookkeeping
+switched (and restored afterwards); `subdir_done()` inside ends the file, not the caller.  For every
+file table, every fuel level and every state meeting `func_subdir`'s preconditions. -/
+theorem subdir_shares_env (files : Files) (fuel : Nat) (d : Str) (block : List Node) (s : St)
+    (h : SubdirOk files s d block) :
+    let dir := joinPath s.subdir d
+    let inPlace := execBlock (hooksAt files fuel) block { s with visited := dir :: s.visited, subdir := dir }
+    ({ s with visited := dir :: s.visited, subdir := dir } : St).vars = s.vars ∧
+    (hooksAt files (fuel + 1)).subdir d s =
+      (match leaveSubdir s.subdir inPlace () with
+        | .ok _ s2 => .ok none s2
+        | .err e s2 => .err e s2
+        | .sig b s2 => .sig b s2
+        | .done s2 => .done s2) ∧
+    ((hooksAt files (fuel + 1)).subdir d s).st.vars = inPlace.st.vars ∧
+    ((hooksAt files (fuel + 1)).subdir d s).st.out = inPlace.st.out := by
+  intro dir inPlace
+  have e : (hooksAt files (fuel + 1)).subdir d s = _ := enterSubdir_eq _ files d block s h
+  refine ⟨rfl, e, ?_, ?_⟩ <;> rw [e]
+  · exact (leave_keeps s.subdir inPlace).1
+  · exact (leave_keeps s.subdir inPlace).2
+
+/-- entering the same directory twice is an error, and so is a directory without a build file -/
+theorem subdir_twice_is_error (files : Files) (fuel : Nat) (d : Str) (s : St)
+    (h1 : hasSub ['.', '.'] d = false) (h2 : (s.subdir.isEmpty && d = cs!"subprojects") = false)
+    (h3 : (s.subdir.isEmpty && cs!"meson-".isPrefixOf d) = false) (h4 : d.isEmpty = false)
+    (h5 : d.head? ≠ some '/') (h6 : plainPath d = true) :
+    (s.visited.contains (joinPath s.subdir d) = true →
+      (hooksAt files (fuel + 1)).subdir d s = .err .invalidArguments s) ∧
+    (s.visited.contains (joinPath s.subdir d) = false → fileOf files (joinPath s.subdir d) = none →
+      (hooksAt files (fuel + 1)).subdir d s =
+        .err .interpreterException { s with visited := joinPath s.subdir d :: s.visited }) := by
+  constructor
+  · intro hv
+    show enterSubdir _ files d s = _
+    unfold enterSubdir
+    simp only [h1, h2, h3, h4, h5, h6, hv, Bool.false_eq_true, ↓reduceIte, Bool.not_true]
+  · intro hv hf
+    show enterSubdir _ files d s = _
+    unfold enterSubdir
+    simp only [h1, h2, h3, h4, h5, h6, hv, hf, Bool.false_eq_true, ↓reduceIte, Bool.not_true]
+
+/-- `subproject()` is isolated in both directions:
+* the callee sees nothing of the caller's variables — the whole outcome (returned object, log, error)
+  is the same whatever the caller's variable table holds;
+* the caller's variable table is exactly what it was — no name of the subproject becomes visible. -/
+theorem subproject_isolated (files : Files) (fuel : Nat) (name : Str) (s : St) (v' : List (Str × Val)) :
+    ((hooksAt files (fuel + 1)).subproject name s).forgetVars =
+      ((hooksAt files (fuel + 1)).subproject name { s with vars := v' }).forgetVars ∧
+    ((hooksAt files (fuel + 1)).subproject name s).st.vars = s.vars :=
+  ⟨enterSubproject_blind _ files name s v', enterSubproject_vars _ files name s⟩
+
+/-- the sub-interpreter starts from an empty variable table -/
+theorem subproject_starts_empty (s : St) (name : Str) : (childState s name).vars = [] := rfl
+
+/-- the only way in is `get_variable` on the returned object, which reads the subproject's final table -/
+theorem subproject_get_variable (name : Str) (vars : List (Str × Val)) (k : Str) (dflt : Val) :
+    methodCall (.subproj name vars) cs!"get_variable" [.str k] [] =
+      (match lookup k vars with | some v => .ok v | none => .error .invalidArguments) ∧
+    methodCall (.subproj name vars) cs!"get_variable" [.str k, dflt] [] =
+      .ok ((lookup k vars).getD dflt) := by
+  have hm : (methodsOf (Val.subproj name vars).ty).contains cs!"get_variable" = true := by
+    show (methodsOf .subproj).contains cs!"get_variable" = true
+    decide
+  have hs : sigOf .subproj cs!"get_variable" = some (.pos [.str] [.object]) := by decide
+  constructor <;> unfold methodCall <;> rw [hm] <;>
+    simp [subprojMethod, noKw, argCheck, hs, typedPos, allInst, isInstance, Val.ty, bind, Except.bind, pure,
+      Except.pure] <;>
+    cases lookup k vars <;> rfl
 
 example : mayWrite cs!"a" (.plusassign 3 cs!"b" (.arr 3 [.id 3 cs!"a"] [] false)) = false := by decide
 
